@@ -1,4 +1,5 @@
 import QuaiVerif.Driver.KV
+import QuaiVerif.Driver.Addr
 /- qvdriver: `qvdriver <area>` reads protocol lines on stdin, answers one line per line. -/
 open QuaiVerif
 
@@ -7,4 +8,5 @@ def main (args : List String) : IO UInt32 := do
   let stdout ← IO.getStdout
   match args with
   | ["kv"] => ioLoop KV.step stdin stdout {}; return 0
+  | ["addr"] => ioLoop Addr.step stdin stdout {}; return 0
   | _ => IO.eprintln "usage: qvdriver <area>"; return 2
